@@ -343,14 +343,14 @@ class Gen:
                     sc = Scope("named", scope, name=nm)
                     scope.named[nm] = sc
                     st = Stmt("label", scope, d=d, block=None, bscope=sc)
-                    st.block = self.gen_block(sc, depth + 1, rng.randrange(1, 5), in_macro, in_loop, in_import, live, in_if)
+                    st.block = self.gen_block(sc, depth + 1, self._nstmts(1, 5), in_macro, in_loop, in_import, live, in_if)
                 else:
                     st = Stmt("label", scope, d=d, block=None, bscope=None)
                 out.append(st)
             elif r < 0.63 and depth < k["max_depth"] and not no_brace_next:
                 sc = Scope("brace", scope)
                 st = Stmt("braces", scope, bscope=sc, block=None)
-                st.block = self.gen_block(sc, depth + 1, rng.randrange(1, 5), in_macro, in_loop, in_import, live, in_if)
+                st.block = self.gen_block(sc, depth + 1, self._nstmts(1, 5), in_macro, in_loop, in_import, live, in_if)
                 out.append(st)
             elif r < 0.70 and not in_loop:
                 nm = self.fresh_name(scope, prefer_shadow=not live and DEAD_DEFS_INVISIBLE)
@@ -381,15 +381,15 @@ class Gen:
                 idx = Def("index", "index", sc)
                 cnt = rng.choice([0, 1, 2, 3, 4])
                 st = Stmt("loop", scope, count=cnt, bscope=sc, index=idx, block=None)
-                st.block = self.gen_block(sc, depth + 1, rng.randrange(1, 4), in_macro, True, in_import, live and cnt > 0, in_if)
+                st.block = self.gen_block(sc, depth + 1, self._nstmts(1, 4), in_macro, True, in_import, live and cnt > 0, in_if)
                 self.nbytes += self._est(st.block) * max(0, cnt - 1)
                 out.append(st)
             elif r < 0.91 and depth < k["max_depth"] and rng.random() < k["p_if"]:
                 st = Stmt("if", scope, cond=None, then=None, else_=None, taken=rng.random() < 0.5)
                 self.slots.append((st, "cond", "cond", scope))
-                st.then = self.gen_block(scope, depth + 1, rng.randrange(1, 4), in_macro, in_loop, in_import, live and st.taken, True)
+                st.then = self.gen_block(scope, depth + 1, self._nstmts(1, 4), in_macro, in_loop, in_import, live and st.taken, True)
                 if rng.random() < 0.6:
-                    st.else_ = self.gen_block(scope, depth + 1, rng.randrange(1, 4), in_macro, in_loop, in_import, live and not st.taken, True)
+                    st.else_ = self.gen_block(scope, depth + 1, self._nstmts(1, 4), in_macro, in_loop, in_import, live and not st.taken, True)
                 out.append(st)
             elif r < 0.97 and self.macros and not in_macro:
                 m = rng.choice(self.macros)
@@ -401,6 +401,12 @@ class Gen:
             else:
                 out.append(self.gen_instr(scope, in_loop))
         return out
+
+    def _nstmts(self, lo, hi):
+        """Number of statements of a block; now and then a block is empty (or, in the hostile layout, holds only comments)."""
+        if self.rng.random() < self.k.get("p_empty_block", 0.05):
+            return 0
+        return self.rng.randrange(lo, hi)
 
     def _est(self, block):
         n = 0
@@ -467,7 +473,7 @@ class Gen:
         for i in range(rng.randrange(0, 3)):
             params.append(Def("p%d" % i, "param", sc))
         st = Stmt("macrodef", scope, d=d, params=params, bscope=sc, block=None)
-        st.block = self.gen_block(sc, 1, rng.randrange(1, 5), in_macro=True)
+        st.block = self.gen_block(sc, 1, self._nstmts(1, 5), in_macro=True)
         self.macros.append(st)
         self.prog.features.add("macro")
         return st
